@@ -154,6 +154,13 @@ func VerifC20_PublicSymbolValidation() {
 	for i, name := range p.syms {
 		pub[i] = verifrt.Bool("public." + name)
 		allPublic = verifrt.And(allPublic, pub[i])
+		// the first segment of a dotted (linked) symbol being public says nothing
+		// about the dotted symbol itself - only map elements inherit
+		if dot := verifIndexByte(name, '.'); dot > 0 && name[:dot] != "tags" {
+			if verifrt.Bool("public.firstsegment." + name) {
+				store.MakeSymbolPublic(name[:dot])
+			}
+		}
 		if pub[i] {
 			base := name
 			if len(name) > 5 && name[:5] == "tags." {
@@ -181,4 +188,13 @@ func VerifC20_PublicSymbolValidation() {
 			verifrt.Assert(named, "C20 rejection names a referenced non-public symbol: "+p.text)
 		}
 	}
+}
+
+func verifIndexByte(s string, c byte) int {
+	for i := 0; i < len(s); i++ {
+		if s[i] == c {
+			return i
+		}
+	}
+	return -1
 }
